@@ -9,4 +9,5 @@ def drvC06 (xs : List Nat) : String :=
     let g : Geom := { bankbits, rowbits, colbits, align, rankbits, bba }
     let (rk, bk, row, col) := translate g a
     fmt [rk, bk, row, col]
+  | [memtype, nphases] => fmt [alignOf memtype nphases]       -- address_align of the controller
   | _ => "bad-line"
